@@ -1007,7 +1007,8 @@ def _conform_time(time: int | float | str | dt.datetime, col_type: pa.DataType):
 
     if pa.types.is_timestamp(col_type):
         if not isinstance(time, dt.datetime):
-            return dt.datetime.fromtimestamp(time)
+            # UNIX seconds denote an instant; timestamp columns hold naive UTC times
+            return dt.datetime.fromtimestamp(time, dt.timezone.utc).replace(tzinfo=None)
     elif isinstance(time, dt.datetime):
         return time.timestamp()
 
